@@ -150,8 +150,9 @@ pub(super) fn derive_schema(input: TokenStream) -> syn::Result<TokenStream> {
 
                     let ty = &f.ty;
                     let inner_option = inner_Option(ty);
+                    let is_option = inner_option.is_some();
 
-                    let is_optional_field = inner_option.is_some()
+                    let is_optional_field = is_option
                         || container_default
                         || field_attrs.serde.default
                         || field_attrs.serde.skip_deserializing /* written, never read: filled by Default */
@@ -192,8 +193,8 @@ pub(super) fn derive_schema(input: TokenStream) -> syn::Result<TokenStream> {
                     }
 
                     if field_attrs.serde.flatten {
-                        properties.push(if is_optional_field {quote! {
-                            /* an absent `Option` (or defaulted) member brings none of its keys */
+                        properties.push(if is_option {quote! {
+                            /* a flattened `Option` that is `None` brings none of its keys */
                             for (property_name, property_schema, _) in ::ohkami::openapi::schema::RawSchema::from(#property_schema).into_properties() {
                                 schema = schema.optional(property_name, property_schema);
                             }
